@@ -582,6 +582,64 @@ def run_solve(prog, preset=(), twice=False, between=None):
     return ip, r
 
 
+def rule_solver_arguments(ctx, rule='R01.s'):
+    """solve hands the caller's guess, method and options to scipy.optimize.root unchanged (the documented way to choose the
+    solver and its tolerances), and with no arguments starts from the zero vector of the full length"""
+    cls = ctx.prog.cls(PRISMQ)
+    m = cls.find_method('solve')
+    construct = PRISMQ + '.solve'
+    bad = []
+    try:
+        # explicit arguments
+        def run_explicit(preset):
+            ip_, r_ = build_prism(ctx.prog, preset)
+            ip_.declare('g0', 'curve')
+            guess_ = Arr(N.sym('g0'), 'guess', ip_)
+            opts_ = Obj('dict', {'items': {'fatol': Num(ip_.declare('user_fatol'))}}, 'options')
+            ip_.call(ip_.find_method(r_['PRISM'], 'solve'), [], {'guess': guess_, 'method': Const('anderson'), 'options': opts_})
+            r_['opts'] = opts_
+            return ip_, r_
+
+        def run_default(preset):
+            ip_, r_ = build_prism(ctx.prog, preset)
+            ip_.call(ip_.find_method(r_['PRISM'], 'solve'), [], {})
+            return ip_, r_
+        (_, ip, r), = explore(run_explicit)[:1]
+        pr, opts = r['PRISM'], r['opts']
+        roots = [x for k, x in ip.notes if k == 'root']
+        if len(roots) != 1:
+            raise Unsupported('expected one call of scipy.optimize.root, found %d' % len(roots))
+        rt = roots[0]
+        x0 = rt['x0']
+        root0 = x0.base if isinstance(x0, View) else x0
+        t0 = W.attr_term(ip, x0)
+        if t0 is None or P.is_pw(t0) or not t0.equals(N.sym('g0')):
+            bad.append('the solver is started from %s, not from the guess the caller passed' % (P.show(t0) if t0 is not None else x0))
+        mth = rt['method']
+        if not (isinstance(mth, Const) and mth.v == 'anderson'):
+            bad.append('method=%r reaches scipy.optimize.root as %r' % ('anderson', getattr(mth, 'v', mth)))
+        op = rt['options']
+        if op is not opts and not (isinstance(op, Obj) and op.cls == 'dict' and
+                                    set(op.attrs['items']) == {'fatol'} and op.attrs['items']['fatol'] is opts.attrs['items']['fatol']):
+            bad.append('the options dictionary of the caller does not reach scipy.optimize.root (it receives %s)'
+                       % (sorted(op.attrs['items']) if isinstance(op, Obj) and op.cls == 'dict' else op))
+        # defaults
+        (_, ip2, r2), = explore(run_default)[:1]
+        pr2 = r2['PRISM']
+        rt2 = [x for k, x in ip2.notes if k == 'root'][0]
+        t2 = W.attr_term(ip2, rt2['x0'])
+        if t2 is None or P.is_pw(t2) or not t2.is_zero():
+            bad.append('without a guess the solver is started from %s, not from zero' % (P.show(t2) if t2 is not None else rt2['x0']))
+        xs = W.attr_term(ip2, pr2.attrs.get('x'))
+    except (Unsupported, Raised) as e:
+        ctx.undecided(rule, construct, str(e), m.loc())
+        return
+    if bad:
+        ctx.violation(rule, construct, 'solver-arguments', '; '.join(bad), m.loc())
+    else:
+        ctx.holds(rule, construct, 'guess, method and options reach scipy.optimize.root as passed; default start is the zero vector', m.loc())
+
+
 def _solved_state(ip, pr):
     """what a user can observe on a solved object: content term and space flag of the stored arrays"""
     out = {}
